@@ -26,6 +26,32 @@ static void addPairs(Obs& o, const Po::OptionContext& ctx, const Po::ParsedValue
 		o.add(id); addStr(o, it->second);
 	}
 }
+// kind 1 (implicit value): sel%8 = 0..5 the six orders of {arg, defaultsTo, implicit}, 6 = implicit only, 7 = implicit + arg;
+// kind 2 (required) and kind 0 (flag): sel%5 = none / arg / default / arg+default / default+arg (no implicit text: a flag is implicit by
+// construction, a required option must stay required).  The texts are string literals (Value keeps the pointers).
+static void describe(Po::Value* v, ll kind, unsigned sel) {
+	static const int perm[6][3] = {{0,1,2},{0,2,1},{1,0,2},{1,2,0},{2,0,1},{2,1,0}};
+	if (kind == 1) {
+		unsigned k = sel % 8;
+		if (k == 6) { v->implicit("1"); return; }
+		if (k == 7) { v->implicit("1"); v->arg("<n>"); return; }
+		for (int j = 0; j != 3; ++j) {
+			switch (perm[k][j]) {
+				case 0: v->arg("<n>"); break;
+				case 1: v->defaultsTo("0"); break;
+				default: v->implicit("1"); break;
+			}
+		}
+		return;
+	}
+	switch (sel % 5) {
+		case 1: v->arg("<x>"); break;
+		case 2: v->defaultsTo("0"); break;
+		case 3: v->arg("<x>"); v->defaultsTo("0"); break;
+		case 4: v->defaultsTo("0"); v->arg("<x>"); break;
+		default: break;
+	}
+}
 int main() {
 	Case c; Obs o;
 	while (readCase(c)) {
@@ -36,7 +62,10 @@ int main() {
 			std::string nm = getStr(c);
 			char a = (char)c.next(); ll kind = c.next(); ll neg = c.next();
 			Po::Value* v = kind == 0 ? static_cast<Po::Value*>(Po::flag(sinkB[i & 255])) : static_cast<Po::Value*>(Po::storeTo(sinkI[i & 255]));
-			if (kind == 1) v->implicit("1");
+			// The three descriptions of a value (arg name, default text, implicit text) share one setter whose storage switches from a
+			// single slot to a 3-slot pack with the second description: attach them in every order / subset (chosen from the case,
+			// so a replay is deterministic).  Only implicit() may change how the option is parsed; arg()/defaultsTo() must not.
+			describe(v, kind, (unsigned)(i * 7 + nm.size() * 3 + (unsigned char)a + n + (neg ? 5 : 0)));
 			if (neg) v->negatable();
 			g.addOption(Po::SharedOptPtr(new Po::Option(nm, a, "", v)));
 		}
